@@ -581,7 +581,7 @@ struct FileWriterMatrix : Family {
 			std::string what;
 			ctx.schedNote(std::to_string(flags) + (state == 0 ? "n" : state == 1 ? "e" : state == 2 ? "f" : "l"));
 			Out o = callLib(plan, [&] {
-				FW w(path, static_cast<FW::OpenMode>(flags));
+				FW w = (flags == static_cast<unsigned>(FW::OpenMode::Default) && (op.u("n2") & 1)) ? FW(path) : FW(path, static_cast<FW::OpenMode>(flags)); // default argument
 				w.Write(d1.data(), d1.size());
 				if (op.u("n1") & 1) { FW moved(std::move(w)); moved.Write(d2.data(), d2.size()); } // the writer is moved between the two writes
 				else w.Write(d2.data(), d2.size());
